@@ -246,13 +246,23 @@ def coq_eval_cases(prop, check_module, terms, preamble="", shard=400, timeout=90
         for j, t in enumerate(shards[ix]):
             body.append("Definition c%d : case := %s." % (j, t))
             body.append("Eval vm_compute in (agrees c%d, prop_ok c%d)." % (j, j))
-        rc, out = _coqc_tmp("%s_cases_%d_%d" % (prop, os.getpid(), ix), "\n".join(body) + "\n", timeout)
+        # a coqc process that dies without a Coq error message (killed for memory, starved past its
+        # time limit on an overloaded machine) says nothing about the cases: the shard is evaluated
+        # again, twice at most, before the run is declared broken.  A genuine Coq error (ill-typed
+        # case term, missing definition) prints "Error:" and fails at once.
+        for attempt in range(3):
+            rc, out = _coqc_tmp("%s_cases_%d_%d_%d" % (prop, os.getpid(), ix, attempt), "\n".join(body) + "\n", timeout)
+            rs = [(a == "true", b == "true") for a, b in PAIR_RE.findall(out)]
+            if rc == 0 and len(rs) == len(shards[ix]):
+                return rs
+            if "Error:" in out or attempt == 2:
+                break
+            log("coqc on case shard %d of %s ended with status %s and %d of %d results, no Coq error: evaluating it again"
+                % (ix, prop, rc, len(rs), len(shards[ix])))
+            time.sleep(5 * (attempt + 1))
         if rc != 0:
             raise RuntimeError("coqc failed on case shard %d:\n%s" % (ix, out[-4000:]))
-        rs = [(a == "true", b == "true") for a, b in PAIR_RE.findall(out)]
-        if len(rs) != len(shards[ix]):
-            raise RuntimeError("case shard %d: expected %d results, got %d\n%s" % (ix, len(shards[ix]), len(rs), out[-2000:]))
-        return rs
+        raise RuntimeError("case shard %d: expected %d results, got %d\n%s" % (ix, len(shards[ix]), len(rs), out[-2000:]))
 
     with concurrent.futures.ThreadPoolExecutor(max_workers=NCPU) as ex:
         parts = list(ex.map(work, range(len(shards))))
